@@ -166,8 +166,58 @@ def run(chk):
                 codes = sorted(json.loads(d)[1] for d in vs[0][2])
                 if codes != ["affects", "keep-sorted", "keep-unique", "line-count"]:
                     chk.violation("multi-file diff: diagnostics %s" % codes, {"concrete": cs[0], "verdict": str(vs[0])[:800]})
-        chk.notes["inputs"] = len(byname)
+        symlink_input(chk, R)
+        chk.notes["inputs"] = len(byname) + 1
         chk.notes["runs_per_input"] = R
         chk.sample({"input": "diff", "sections": list(diff_sections(rng)[1]), "variation": variants(rng, 3)})
     finally:
         fake.close()
+
+
+def symlink_input(chk, R):
+    """A file reachable under several names (symbolic links inside the repository), the directory entries created
+    in different orders, on tmpfs (directory order = creation order) when available: every run lists and reports the
+    same set of paths -- every name, as files in scope are examined under the names they are found by."""
+    import shutil
+    import tempfile
+    base = "/dev/shm" if os.access("/dev/shm", os.W_OK) else vlib.scratch()
+    body = '# <block name="dup" keep-unique>\na\na\n# </block>\n'
+    names = ["lib/real.py", "alias_top.py", "lib/alias_a.py", "zz/alias_z.py", "aa/alias_first.py"]
+    verdicts = []
+    for k in range(R):
+        d = tempfile.mkdtemp(prefix="bwverif-sym-", dir=base)
+        try:
+            os.makedirs(os.path.join(d, ".git"))
+            order = list(names)
+            if k % 2:
+                order.reverse()
+            if k % 3 == 2:
+                order = order[2:] + order[:2]
+            for n in order:
+                os.makedirs(os.path.dirname(os.path.join(d, n)) or d, exist_ok=True)
+            # links may be created before their target exists
+            for n in order:
+                full = os.path.join(d, n)
+                if n == "lib/real.py":
+                    open(full, "w").write(body)
+                else:
+                    os.symlink(os.path.relpath(os.path.join(d, "lib/real.py"), os.path.dirname(full)), full)
+            v = []
+            for args in ([], ["list"]):
+                r = vlib.run_cli_one({"id": "sym%d" % k, "premade": True, "files": {}, "diff": None, "args": args, "terminal": True,
+                                      "env": {"TOKIO_WORKER_THREADS": str([1, 4, 16][k % 3])}}, workdir=d, timeout=60)
+                if r["outcome"] != "ok":
+                    chk.violation("symlinked repository: run failed: %s" % (r.get("error") or "")[:200], {"order": order, "args": args})
+                    return
+                v.append(sorted((r.get("list") if args else r.get("report") or {}).keys()))
+            verdicts.append((tuple(v[0]), tuple(v[1]), tuple(order)))
+        finally:
+            shutil.rmtree(d, ignore_errors=True)
+    chk.count(nontrivial=True)
+    distinct = {(a, b) for a, b, _ in verdicts}
+    if len(distinct) != 1:
+        chk.violation("a repository with symbolic links gives %d different verdicts depending on the order its directory entries were created in" % len(distinct),
+                      {"runs": [{"created_in_order": o, "reported": a, "listed": b} for a, b, o in verdicts[:6]]})
+    elif list(verdicts[0][0]) != sorted(names) or list(verdicts[0][1]) != sorted(names):
+        chk.violation("a file reachable under %d names is examined under %s only" % (len(names), list(verdicts[0][0])),
+                      {"names": names, "reported": verdicts[0][0], "listed": verdicts[0][1]})
